@@ -65,6 +65,9 @@ enum Task {
     Cast(Prim, Prim),
     /// bool operators & | ^ == != on bool inputs
     BoolOp(BinOp),
+    /// a VarConst / ConstVar task whose literal constant is written without its type suffix (the
+    /// literal then gets its type from the other operand)
+    SuffixFree(Box<Task>),
 }
 
 impl Task {
@@ -77,11 +80,22 @@ impl Task {
             Task::Not(t) => format!("not:{}", t.name()),
             Task::Cast(a, b) => format!("cast:{}->{}", a.name(), b.name()),
             Task::BoolOp(op) => format!("{}:bool:var-var", op.sym()),
+            Task::SuffixFree(t) => format!("{}:suffix-free-literal", t.key()),
         }
     }
 
     /// (source, parameter types, result type)
     fn program(&self) -> (String, Vec<Prim>, Prim) {
+        if let Task::SuffixFree(inner) = self {
+            let (src, params, r) = inner.program();
+            let lit = match &**inner {
+                Task::VarConst(op, t, c) => (if op.is_shift() { ints::U8 } else { *t }).lit(*c),
+                Task::ConstVar(_, t, c) => t.lit(*c),
+                _ => panic!("harness: SuffixFree wraps a constant-operand task"),
+            };
+            let bare: String = lit.chars().take_while(|ch| *ch == '-' || ch.is_ascii_digit()).collect();
+            return (src.replacen(&lit, &bare, 1), params, r);
+        }
         let res = |op: BinOp, t: IntTy| if op.is_cmp() { Prim::Bool } else { Prim::Int(t) };
         let rhs_ty = |op: BinOp, t: IntTy| if op.is_shift() { ints::U8 } else { t };
         match self {
@@ -145,6 +159,7 @@ impl Task {
                 vec![*a],
                 *b,
             ),
+            Task::SuffixFree(_) => unreachable!(),
             Task::BoolOp(op) => (
                 format!("pub fn main(x: bool, y: bool) -> bool {{ x {} y }}", op.sym()),
                 vec![Prim::Bool, Prim::Bool],
@@ -159,6 +174,7 @@ impl Task {
             Task::VarVar(op, t) => ints::binop(*op, *t, args[0], args[1]),
             Task::VarConst(op, t, c) => ints::binop(*op, *t, args[0], *c),
             Task::ConstVar(op, t, c) => ints::binop(*op, *t, *c, args[0]),
+            Task::SuffixFree(inner) => inner.expect(args),
             Task::Neg(t) => ints::neg(*t, args[0]),
             Task::Not(Prim::Bool) => Arith::Val((args[0] == 0) as i128),
             Task::Not(Prim::Int(t)) => Arith::Val(ints::not(*t, args[0])),
@@ -358,10 +374,14 @@ fn run_task(ctx: &Ctx, task: &Task, tuples: &[Vec<i128>], exhaustive: bool, dedu
                     "observed_value": got_val.to_string(),
                 }));
             }
+            let core_task = match task {
+                Task::SuffixFree(inner) => &**inner,
+                t => t,
+            };
             let known = !ok
-                && match task {
+                && match core_task {
                     Task::VarConst(BinOp::Mul, t, c) | Task::ConstVar(BinOp::Mul, t, c) => {
-                        ints::kf_negconst_mul(*t, *c, tup[0])
+                        ints::kf_negconst_mul_lit(*t, *c, tup[0], if matches!(task, Task::SuffixFree(_)) { 32 } else { t.bits as i128 })
                             && matches!(exp, Arith::Val(v) if v == t.min_val())
                             && matches!(&got_panic, Some(p) if p.reason == Reason::Overflow.code())
                     }
@@ -527,14 +547,18 @@ fn build_tasks(tier: Tier, rng: &mut Rng) -> Vec<(Task, Vec<Vec<i128>>, bool)> {
                     Some(v) => (v, true),
                     None => (sample_values(rng, pt, n_rand_vals), false),
                 };
-                tasks.push((Task::VarConst(op, t, c), vals.into_iter().map(|v| vec![v]).collect(), exh));
+                let argv: Vec<Vec<i128>> = vals.into_iter().map(|v| vec![v]).collect();
+                tasks.push((Task::SuffixFree(Box::new(Task::VarConst(op, t, c))), argv.clone(), exh));
+                tasks.push((Task::VarConst(op, t, c), argv, exh));
             }
             for c in lhs_consts {
                 let (vals, exh) = match all_values(Prim::Int(yt)) {
                     Some(v) => (v, true),
                     None => (sample_values(rng, Prim::Int(yt), n_rand_vals), false),
                 };
-                tasks.push((Task::ConstVar(op, t, c), vals.into_iter().map(|v| vec![v]).collect(), exh));
+                let argv: Vec<Vec<i128>> = vals.into_iter().map(|v| vec![v]).collect();
+                tasks.push((Task::SuffixFree(Box::new(Task::ConstVar(op, t, c))), argv.clone(), exh));
+                tasks.push((Task::ConstVar(op, t, c), argv, exh));
             }
         }
         // unary
